@@ -20,6 +20,11 @@ pub enum WOp {
     Burst { seed: u64, n: u16 },
     /// one large part (around the 4 MiB write-buffer size), bytes generated from the seed
     AddBig { stream: u8, seed: u64, len: u32, buffered: bool, meta: u64 },
+    /// `n` further streams, each registered under its own name and given one small part
+    ManyStreams { seed: u64, n: u16 },
+    RegisterNamed(String),
+    /// a part for the most recently registered stream
+    AddToLast { data: Vec<u8>, meta: u64, buffered: bool },
 }
 
 /// Burst / AddBig are shorthand (keeps cases and replay files small); everything is checked on the expanded list
@@ -35,6 +40,15 @@ fn expand_ops(ops: &[WOp]) -> Vec<WOp> {
                     let mut data = vec![(j >> 8) as u8, j as u8];
                     data.extend((0..len).map(|_| r.next() as u8));
                     out.push(WOp::AddBuffered { stream, data, meta: r.below(5) * (j as u64 + 1) });
+                }
+            }
+            WOp::ManyStreams { seed, n } => {
+                let mut r = SplitMix::new(*seed);
+                for j in 0..*n {
+                    out.push(WOp::RegisterNamed(format!("m{}-{}", j, seed % 97)));
+                    let len = 1 + r.below(4) as usize;
+                    let data: Vec<u8> = (0..len).map(|_| r.next() as u8).collect();
+                    out.push(WOp::AddToLast { data, meta: r.below(70000), buffered: j % 3 == 0 });
                 }
             }
             WOp::AddBig { stream, seed, len, buffered, meta } => {
@@ -79,7 +93,7 @@ pub fn check_in(ctx: &Ctx, case: &ArcCase) -> Report {
     let path = dir.file("a.agc");
     let mut model: Vec<MStream> = Vec::new();
     let mut ids: BTreeMap<String, usize> = BTreeMap::new();
-    let mut buffered: BTreeMap<usize, Vec<(Vec<u8>, u64)>> = BTreeMap::new();
+    let mut buffered_parts: BTreeMap<usize, Vec<(Vec<u8>, u64)>> = BTreeMap::new();
     let (mut n_buf, mut n_imm, mut interleaved) = (0usize, 0usize, false);
     let mut last_kind = 0u8;
 
@@ -92,7 +106,32 @@ pub fn check_in(ctx: &Ctx, case: &ArcCase) -> Report {
     let mut big_part = false;
     for op in &ops {
         match op {
-            WOp::Burst { .. } | WOp::AddBig { .. } => unreachable!(),
+            WOp::Burst { .. } | WOp::AddBig { .. } | WOp::ManyStreams { .. } => unreachable!(),
+            WOp::RegisterNamed(name) => {
+                let got = w.register_stream(name);
+                let want = *ids.entry(name.clone()).or_insert_with(|| {
+                    model.push(MStream { name: name.clone(), ..Default::default() });
+                    model.len() - 1
+                });
+                if got != want {
+                    return Report::fail(format!("register_stream({:?}) returned {}, model {}", name, got, want));
+                }
+            }
+            WOp::AddToLast { data, meta, buffered } => {
+                if model.is_empty() {
+                    continue;
+                }
+                let s = model.len() - 1;
+                if *buffered {
+                    w.add_part_buffered(s, data.clone(), *meta);
+                    buffered_parts.entry(s).or_default().push((data.clone(), *meta));
+                } else {
+                    if let Err(e) = w.add_part(s, data, *meta) {
+                        return Report::fail(format!("add_part failed: {}", e));
+                    }
+                    model[s].parts.push((data.clone(), *meta));
+                }
+            }
             WOp::Register(n) => {
                 let name = &case.names[*n as usize % case.names.len()];
                 let got = w.register_stream(name);
@@ -132,8 +171,8 @@ pub fn check_in(ctx: &Ctx, case: &ArcCase) -> Report {
                 }
                 let s = *stream as usize % model.len();
                 w.add_part_buffered(s, data.clone(), *meta);
-                buffered.entry(s).or_default().push((data.clone(), *meta));
-                max_flush = max_flush.max(buffered.values().map(|v| v.len()).sum());
+                buffered_parts.entry(s).or_default().push((data.clone(), *meta));
+                max_flush = max_flush.max(buffered_parts.values().map(|v| v.len()).sum());
                 big_part |= data.len() >= 4 << 20;
                 n_buf += 1;
                 if last_kind == 1 {
@@ -145,7 +184,7 @@ pub fn check_in(ctx: &Ctx, case: &ArcCase) -> Report {
                 if let Err(e) = w.flush_buffers() {
                     return Report::fail(format!("flush_buffers failed: {}", e));
                 }
-                for (s, parts) in std::mem::take(&mut buffered) {
+                for (s, parts) in std::mem::take(&mut buffered_parts) {
                     model[s].parts.extend(parts);
                 }
             }
@@ -166,7 +205,7 @@ pub fn check_in(ctx: &Ctx, case: &ArcCase) -> Report {
     if let Err(e) = w.flush_buffers() {
         return Report::fail(format!("final flush_buffers failed: {}", e));
     }
-    for (s, parts) in std::mem::take(&mut buffered) {
+    for (s, parts) in std::mem::take(&mut buffered_parts) {
         model[s].parts.extend(parts);
     }
     if let Err(e) = w.close() {
@@ -455,6 +494,20 @@ fn strat() -> impl Strategy<Value = ArcCase> {
     })
 }
 
+fn dir_strat() -> impl Strategy<Value = ArcCase> {
+    // a part costs ~5-7 directory bytes, a stream ~10-14: both sides of a 64 KiB directory
+    let parts = (any::<u64>(), prop_oneof![3 => 8_000u16..16_000, 1 => 16_000u16..50_000]).prop_map(|(seed, n)| WOp::Burst { seed, n });
+    let streams = (any::<u64>(), prop_oneof![3 => 3_000u16..8_000, 1 => 8_000u16..20_000]).prop_map(|(seed, n)| WOp::ManyStreams { seed, n });
+    (prop_oneof![parts, streams], prop::collection::vec((0u8..8, prop::collection::vec(any::<u8>(), 0..20), magnitude(), any::<bool>()), 0..5)).prop_map(|(big, small)| {
+        let mut ops: Vec<WOp> = (0..8u8).map(WOp::Register).collect();
+        for (stream, data, meta, buffered) in small {
+            ops.push(if buffered { WOp::AddBuffered { stream, data, meta } } else { WOp::Add { stream, data, meta } });
+        }
+        ops.push(big);
+        ArcCase { names: (0..8).map(|i| format!("n{}", i)).collect(), ops, reads: vec![] }
+    })
+}
+
 fn big_strat() -> impl Strategy<Value = ArcCase> {
     const B: u32 = 4 << 20;
     let small = prop_oneof![
@@ -535,6 +588,10 @@ pub fn run(ctx: &Ctx, stats: &mut Stats) {
     let nb = ctx.tier.pick(64, 800);
     let c3 = ctx.clone();
     run_prop(ctx, stats, "large-parts", nb, big_strat(), &move |c: &ArcCase| check_in(&c3, c));
+    // directories (footers) around and above 64 KiB: ten thousand and more parts, thousands of streams
+    let nd = ctx.tier.pick(48, 600);
+    let c4 = ctx.clone();
+    run_prop(ctx, stats, "large-directory", nd, dir_strat(), &move |c: &ArcCase| check_in(&c4, c));
     if ctx.tier == Tier::Thorough || std::env::var("VERIF_FUZZ").is_ok() {
         crate::fuzzing::run_stage(ctx, stats, "arc", ctx.tier.pick(100_000, 2_000_000));
     }
@@ -556,7 +613,7 @@ pub fn replay(ctx: &Ctx, stage: &str, case: &Value) -> Report {
 pub const INFO: PropInfo = PropInfo {
     id: "C13",
     level: "exploration",
-    rule: "cases = operation histories over {register_stream(name from a pool of 1..5 printable-ASCII names, so re-registration is frequent), add_part, add_part_buffered, flush_buffers, set_raw_size} (0..40 ops, one of which may be a burst of 15..1500 small buffered additions to pseudo-random streams so that single flushes commit > 20, > 100 parts; data 0..64 kB; metadata and raw sizes at every byte-length boundary up to 2^64-1) followed by flush, close, reopen and a generated read script (sequential get_part, get_part_by_id in any order, out-of-range ids) plus a full sequential and a reverse random-access sweep. Oracle: a sequential model of the container (commit order: immediate at call time, buffered at the next flush by stream id then insertion order; empty parts read back as (empty, 0)) and an independent parser of the file's footer and parts. The integer codec is checked separately on every byte-length boundary and 4*10^5 random magnitudes against the format rule. Stage large-parts (64 quick / 800 thorough): one or two parts of 4 MiB -9/-1/0/+1 .. 8 MiB (the write-buffer size and beyond; immediate or buffered) between small parts, same oracle. Non-trivial history = >=2 streams, buffered and immediate additions interleaved, and an out-of-order read; distinct = distinct history.",
+    rule: "cases = operation histories over {register_stream(name from a pool of 1..5 printable-ASCII names, so re-registration is frequent), add_part, add_part_buffered, flush_buffers, set_raw_size} (0..40 ops, one of which may be a burst of 15..1500 small buffered additions to pseudo-random streams so that single flushes commit > 20, > 100 parts; data 0..64 kB; metadata and raw sizes at every byte-length boundary up to 2^64-1) followed by flush, close, reopen and a generated read script (sequential get_part, get_part_by_id in any order, out-of-range ids) plus a full sequential and a reverse random-access sweep. Oracle: a sequential model of the container (commit order: immediate at call time, buffered at the next flush by stream id then insertion order; empty parts read back as (empty, 0)) and an independent parser of the file's footer and parts. The integer codec is checked separately on every byte-length boundary and 4*10^5 random magnitudes against the format rule. Stage large-directory (48 quick / 600 thorough): 8000..50000 small parts in one flush, or 3000..20000 streams with one part each, so that the stream directory (footer) lies on both sides of 64 KiB; same oracle. Stage large-parts (64 quick / 800 thorough): one or two parts of 4 MiB -9/-1/0/+1 .. 8 MiB (the write-buffer size and beyond; immediate or buffered) between small parts, same oracle. Non-trivial history = >=2 streams, buffered and immediate additions interleaved, and an out-of-order read; distinct = distinct history.",
     assumptions: &["stream ids passed to add_part_buffered are registered ids (an unregistered id makes the later flush fail; outside the stated histories)", "files are small (offsets < 2^32); offset magnitudes up to 2^64-1 are covered by the integer-codec stage only"],
     needs_cli: false,
     needs_checked: false,
